@@ -175,7 +175,8 @@ def gen_budget(rnd, nsources=None, rules='random', views=None, supplemental=None
             continue
         b['sources'].append(gen_source(rnd, i, same_layout_as=twin))
     b['supplemental'] = gen_supplemental(rnd) if (supplemental if supplemental is not None else rnd.random() < .4) else None
-    b['rule_mode'] = rnd.choice(['first_match', 'first_match', 'most_specific', None])
+    # (a value that is not one of the two documented spellings - another letter case, a hyphen - is reported and read as first_match)
+    b['rule_mode'] = rnd.choice(['first_match', 'first_match', 'most_specific', 'most_specific', None, None, 'First_Match', 'FIRST_MATCH', 'first-match'])
     kind = rnd.choice(['rules', 'rules', 'rules', 'csv', 'none']) if rules == 'random' else rules
     b['rules_kind'] = kind
     if kind == 'rules':
@@ -284,7 +285,7 @@ def expected(b):
     rows = {}
     if b['supplemental']:
         rows['orders'] = [{'date': r['date'], 'item': r['item'], 'amount': r['amount'], 'qty': r['qty']} for r in b['supplemental']['rows']]
-    mode = b['rule_mode'] or 'first_match'
+    mode = b['rule_mode'] if b['rule_mode'] in ('first_match', 'most_specific') else 'first_match'
     out, unknown = [], 0
     for s in b['sources']:
         for e in s['exp']:
